@@ -59,6 +59,8 @@ func drawTracks(t *rapid.T, p Profile, variant int) []TrackSpec {
 				v.Params = H264ReorderBase + rapid.IntRange(0, NumH264ReorderSets-1).Draw(t, "h264reorderSet")
 			}
 		}
+		// a default flag on the video track is legal and has no meaning for the renditions
+		v.IsDefault = rapid.IntRange(0, 5).Draw(t, "videoDefault") == 0
 		video = &v
 	}
 	defaultAt := -1
